@@ -79,8 +79,11 @@ def inputexp_cases(draw):
 
 def strategy(tier):
     generic = fsmlab.fsm_desc(max_states=3, max_events=2, timers=True, flaky=True)
+    # other blocks of the circuit whose stop() fails (an error the simulator must suppress): the FSM
+    # must be stopped all the same, whatever the order
     return st.one_of(generic, generic, timer_cases(), inputexp_cases()).flatmap(
-        lambda d: st.booleans().map(lambda cb: dict(d, cb_driver=cb)))
+        lambda d: st.tuples(st.booleans(), st.sampled_from([0, 0, 0, 6])).map(
+            lambda t: dict(d, cb_driver=t[0], bad_stoppers=t[1])))
 
 
 # ---------------------------------------------------------------- exhaustive grid
@@ -187,6 +190,8 @@ def execute(case):
         res.classes.append('pending timer cancelled by leaving the state')
     if model.nonfatal:
         res.classes.append('output event refused by its destination (non-fatal)')
+    if case.get('bad_stoppers'):
+        res.classes.append("other blocks with a failing stop()")
     if model.timed_deliveries:
         res.classes.append('timed event delivered')
     if near:
